@@ -181,6 +181,25 @@ def run(ctx):
          "NUL (end of input for the reader) is escaped by the writer" if 0 in writer else
          "a NUL byte inside a string or key is written as is, but the reader (const char* scanner) treats it as end of input")
     finds = [c for c in ef.walk() if c["k"] == "CXXMemberCallExpr" and callee(c).endswith("::find_first_of")]
+    # third idiom, in front of either of the others: `if (str.find_first_of(SET) == npos) { out += str; ...; return; }`
+    # copies a string verbatim when it has nothing to escape - sound iff SET contains every character the switch escapes
+    for fnd in list(finds):
+        guard = next((a_ for a_ in ef.ancestors(fnd) if a_["k"] == "IfStmt" and any(x["i"] == fnd["i"] for x in walk(kids(a_)[0]))), None)
+        if guard is None or "npos" not in render(kids(guard)[0], False):
+            continue
+        then = kids(guard)[1]
+        if not any(x["k"] == "ReturnStmt" for x in walk(then)):
+            continue
+        finds.remove(fnd)
+        stop = literal(call_args(fnd)[0]) if call_args(fnd) else None
+        stopset = {ord(ch) for ch in stop} if isinstance(stop, str) else None
+        if stopset is None:
+            raise AnalysisBroken("escaper fast path: stop set is not a string literal")
+        missing = sorted(ch for ch in writer if ch != 0 and ch not in stopset)
+        R.ob("C24-R1", not missing, ef.q, "fast path:stop set covers every escaped character", ef.site(fnd),
+             "a string without any of %r has nothing to escape" % stop if not missing else
+             "strings containing %s (and none of %r) are copied verbatim: the dump of a string with a backslash followed by `n` equals the dump of the string with a real newline - two different values, one text, one hash" %
+             (", ".join(repr(chr(m)) for m in missing), stop))
     if not finds:
         # per-character idiom: the switch is applied to every character, the default arm passes it through
         R.ob("C24-R1", default_passthrough, ef.q, "default:passthrough", ef.site(esw), "all other bytes are emitted unchanged (the reader's non-special branch appends them unchanged)")
@@ -250,6 +269,9 @@ def run(ctx):
     p_str = ef.d["params"][1]["d"] if ef.key != dts.key and len(ef.d["params"]) > 1 else None
     if p_str is not None:
         raw = [x for x in ef.walk() if x["k"] == "CXXOperatorCallExpr" and x.get("op") == "+=" and strip(kids(x)[2]).get("d") == p_str]
+        # the whole argument may be appended on the fast path (nothing to escape: decided by C24-R1 "fast path")
+        raw = [x for x in raw if not any(a_["k"] == "IfStmt" and "find_first_of" in render(kids(a_)[0], False) and "npos" in render(kids(a_)[0], False) and any(y["i"] == x["i"] for y in walk(kids(a_)[1]))
+                                         for a_ in ef.ancestors(x))]
         R.ob("C24-R2", not raw, ef.q, "escaper:no raw append of its argument", ef.site(esw), "the escaper never appends its whole argument unescaped")
 
     # ---- R3 ---------------------------------------------------------------------------
